@@ -16,7 +16,7 @@ DEFAULT = dict(
     max_depth=[1, 2, 2], ncallers=[1, 1, 2, 3], caller_len=[1, 2, 3], p_caller_await=0.7, p_caller_pause=0.3,
     event_timeout=300.0, short_timeouts=None, p_stall=0.0, shuffle_order=True, rotate_p=0.0,
     own_bus_only=False, long_p=0.0, caller_idle_p=0.0, explicit_parent_p=0.0, redispatch_caller_p=0.0,
-    results_p=0.0, p_await_any=0.0, p_stop_fault=0.0, p_late=0.0,
+    results_p=0.0, p_await_any=0.0, p_stop_fault=0.0, p_late=0.0, p_raise_cancelled=0.0,
 )
 
 
@@ -87,58 +87,71 @@ def gen_bus(seed: int, knobs: dict, profile: str) -> dict:
             return own
         return r.choice(buses)
 
+    OPS = ['p_pause', 'p_yield', 'p_dispatch', 'p_dawait', 'p_gap', 'p_await_any', 'p_redispatch', 'p_readbus', 'p_burn',
+           'p_raise', 'p_raise_cancelled', 'p_return_exc']
+    weights = [max(0.0, K[k]) for k in OPS]
+    total_w = sum(weights) or 1.0
+
+    def pick():
+        x = r.random() * total_w
+        acc = 0.0
+        for k, wgt in zip(OPS, weights):
+            acc += wgt
+            if x < acc:
+                return k
+        return OPS[0]
+
     def prog(is_handler, sync, own=None):
+        """op kinds are drawn with the profile's knobs as relative weights (they need not sum to 1)"""
         p = []
         nvar = 0
         for _ in range(r.choice(K['prog_len'])):
-            x = r.random()
-            acc = 0.0
-
-            def hit(pr):
-                nonlocal acc
-                acc += pr
-                return x < acc
-
-            if hit(K['p_pause']):
+            k = pick()
+            if k == 'p_pause':
                 if not sync:
                     p.append(['pause', dur(r, K['long_p'])])
-            elif hit(K['p_yield']):
+            elif k == 'p_yield':
                 if not sync:
                     p.append(['yield', r.choice([1, 1, 2, 3])])
-            elif hit(K['p_dispatch']):
+            elif k == 'p_dispatch':
                 nvar += 1
                 p.append(['dispatch', target(own), r.choice(types), evopts(), f'v{nvar}'])
-            elif hit(K['p_dawait']):
+            elif k == 'p_dawait':
                 if sync:
                     continue
                 nvar += 1
                 p.append(['dispatch_await', target(own), r.choice(types), evopts(), f'v{nvar}'])
-            elif hit(K['p_gap']):
+            elif k == 'p_gap':
                 if sync:
                     continue
                 nvar += 1
                 p.append(['dispatch', target(own), r.choice(types), evopts(), f'v{nvar}'])
                 p.append(r.choice([['yield', 1], ['yield', 2], ['pause', dur(r)], ['pause', 0.0]]))
                 p.append(['await', f'v{nvar}'])
-            elif hit(K['p_await_any']):
+            elif k == 'p_await_any':
                 # await an event dispatched earlier by this program (not necessarily the latest one)
                 if not sync and nvar:
                     p.append(['await', f'v{r.randrange(1, nvar + 1)}'])
-            elif hit(K['p_redispatch']):
+            elif k == 'p_redispatch':
                 if nvar:
                     p.append(['redispatch', target(own), f'v{r.randrange(1, nvar + 1)}'])
                 elif is_handler:
                     p.append(['redispatch_self', own if own else r.choice(buses)])
-            elif hit(K['p_readbus']):
+            elif k == 'p_readbus':
                 if is_handler:
                     p.append(['read_event_bus'])
-            elif hit(K['p_burn']):
+            elif k == 'p_burn':
                 p.append(['burn', r.choice([0.001, 0.05, 0.2])])
-            elif hit(K['p_raise']):
+            elif k == 'p_raise':
                 if is_handler:
                     p.append(['raise', r.choice(['ValueError', 'KeyError', 'Boom', 'RuntimeError'])])
                     break
-            elif hit(K['p_return_exc']):
+            elif k == 'p_raise_cancelled':
+                # a handler that ends with CancelledError although nobody timed it out (it awaited a cancelled task)
+                if is_handler and not sync:
+                    p.append(['raise_cancelled'])
+                    break
+            elif k == 'p_return_exc':
                 if is_handler:
                     p.append(['return_exc', r.choice(['ValueError', 'Boom'])])
                     break
@@ -237,6 +250,7 @@ PROFILES = {
     'late_reg': dict(nb=[1, 1, 2], p_late=0.5, p_wild=0.6, ntypes=[1, 2], ncallers=[1, 2], caller_len=[3, 4, 5], p_caller_await=0.7, p_caller_pause=0.2),
     'multi_stop': dict(nb=[3, 3, 4], p_stop_fault=1.0, ncallers=[2, 3], caller_len=[2, 3, 4], p_caller_await=0.3, p_pause=0.35, p_dispatch=0.3, p_dawait=0.2),
     'errors': dict(nb=[1, 2, 3], p_raise=0.2, p_return_exc=0.1, results_p=0.4, fwd='some'),
+    'errors_parallel': dict(nb=[1, 1, 2], parallel_p=0.8, p_raise=0.25, p_return_exc=0.1, results_p=0.3, handlers_per_bus=[2, 3, 3], p_wild=0.5, p_pause=0.35),
     'lineage': dict(nb=[1, 2, 3], parallel_p=0.4, p_readbus=0.2, explicit_parent_p=0.3, fwd='some', p_dispatch=0.35),
     'stalls': dict(nb=[1, 2, 3], p_stall=0.8, p_burn=0.1),
     'deep': dict(nb=[1, 2], max_depth=[3], p_dawait=0.4, p_wild=0.15, handlers_per_bus=[1, 2], prog_len=[0, 1, 1, 2], ncallers=[1, 1, 2], caller_len=[1, 2]),
@@ -248,6 +262,7 @@ PROFILES = {
     'timeouts_clean': dict(nb=[1], own_bus_only=True, ncallers=[1], p_caller_await=1.0, short_timeouts=(0.5, [0.05, 0.1, 0.5, 1.0]), long_p=0.3,
                            p_pause=0.5, p_dispatch=0.0, p_dawait=0.0, max_depth=[1]),
     'idle_race': dict(nb=[1, 2], caller_idle_p=0.6, ncallers=[2, 3], p_caller_await=0.3, p_raise=0.05),
+    'idle_dead_loop': dict(nb=[1, 2], caller_idle_p=0.7, ncallers=[1, 2], caller_len=[2, 3, 4], p_caller_await=0.0, p_raise_cancelled=0.12, p_dawait=0.1, p_dispatch=0.2),
 }
 
 
